@@ -153,6 +153,35 @@ var scenarios = map[string]scenarioFn{
 		e.call("ReadDataPoints(empty)", time.Second, func(ctx context.Context) error { _, err := down.ReadDataPoints(ctx); return err })
 		e.call("Downstream.Close", callT, func(ctx context.Context) error { return down.Close(ctx) })
 	},
+	"read-points-unknown-aliases": func(e *env) {
+		// the peer refers to a data id alias and to an upstream alias it never announced: the reads may fail, but
+		// every later call on the stream (the good chunk, the ack flush, Close) has to return
+		var down *iscp.Downstream
+		e.call("OpenDownstream", callT, func(ctx context.Context) (err error) {
+			down, err = e.conn.OpenDownstream(ctx, filters("src"), iscp.WithDownstreamQoS(message.QoSReliable), iscp.WithDownstreamAckFlushInterval(10*time.Millisecond))
+			return
+		})
+		if down == nil {
+			return
+		}
+		if lc := e.w.B.CurrentLink(); lc != nil {
+			if ds := firstDown(e.w); ds != nil {
+				info := &message.UpstreamInfo{SessionID: "x", SourceNodeID: "src", StreamID: broker.StreamIDFor("u", "x", 0)}
+				pts := []*message.DataPoint{{ElapsedTime: 1, Payload: []byte("q")}}
+				lc.Send(&message.DownstreamChunk{StreamIDAlias: ds.Alias, UpstreamOrAlias: info,
+					StreamChunk: &message.StreamChunk{SequenceNumber: 1, DataPointGroups: []*message.DataPointGroup{{DataIDOrAlias: message.DataIDAlias(777), DataPoints: pts}}}})
+				lc.Send(&message.DownstreamChunk{StreamIDAlias: ds.Alias, UpstreamOrAlias: message.UpstreamAlias(888),
+					StreamChunk: &message.StreamChunk{SequenceNumber: 2, DataPointGroups: []*message.DataPointGroup{{DataIDOrAlias: dataID, DataPoints: pts}}}})
+				lc.Send(&message.DownstreamChunk{StreamIDAlias: ds.Alias, UpstreamOrAlias: info,
+					StreamChunk: &message.StreamChunk{SequenceNumber: 3, DataPointGroups: []*message.DataPointGroup{{DataIDOrAlias: dataID, DataPoints: pts}}}})
+			}
+		}
+		for i := 0; i < 3; i++ {
+			e.call("ReadDataPoints", callT, func(ctx context.Context) error { _, err := down.ReadDataPoints(ctx); return err })
+		}
+		e.call("ReadDataPoints(empty)", time.Second, func(ctx context.Context) error { _, err := down.ReadDataPoints(ctx); return err })
+		e.call("Downstream.Close", callT, func(ctx context.Context) error { return down.Close(ctx) })
+	},
 	"read-metadata": func(e *env) {
 		var down *iscp.Downstream
 		e.call("OpenDownstream", callT, func(ctx context.Context) (err error) {
@@ -228,7 +257,7 @@ func upOpts() []iscp.UpstreamOption {
 	return []iscp.UpstreamOption{iscp.WithUpstreamQoS(message.QoSReliable), iscp.WithUpstreamFlushPolicyImmediately(), iscp.WithUpstreamCloseTimeout(closeTo)}
 }
 
-var scenarioNames = []string{"open-up", "write-flush", "up-close-unflushed", "open-down", "read-points", "read-metadata", "send-metadata", "call", "call-wait-reply", "receive-calls", "two-streams-then-conn-close"}
+var scenarioNames = []string{"open-up", "write-flush", "up-close-unflushed", "open-down", "read-points", "read-points-unknown-aliases", "read-metadata", "send-metadata", "call", "call-wait-reply", "receive-calls", "two-streams-then-conn-close"}
 
 var behaviours = []string{"answer", "drop", "delay", "misaddress-request-id", "misaddress-stream-alias", "misaddress-source-node", "disconnect-sever", "disconnect-wfail", "disconnect-reof", "disconnect-blackhole"}
 
@@ -432,10 +461,16 @@ func buildPlan(t *testing.T) []fault {
 	var res []fault
 	for _, name := range scenarioNames {
 		var trace []string
-		func() {
-			defer func() { recover() }()
-			synctest.Test(t, func(t *testing.T) { _, trace, _, _ = runScenario(fault{Scenario: name, Behaviour: "answer"}) })
-		}()
+		// a tree that leaks a lock can stall the fault-free run itself: the case at position 0 then reports it
+		got := make(chan []string, 1)
+		done, _ := vrun.Watchdog(90*time.Second, func() {
+			var tr []string
+			defer func() { recover(); got <- tr }()
+			synctest.Test(t, func(t *testing.T) { _, tr, _, _ = runScenario(fault{Scenario: name, Behaviour: "answer"}) })
+		})
+		if done {
+			trace = <-got
+		}
 		res = append(res, fault{Scenario: name, Position: 0, Behaviour: "answer"})
 		for p := 1; p <= len(trace); p++ {
 			for _, b := range behaviours[1:] {
@@ -479,7 +514,7 @@ func TestC08NoHang(t *testing.T) {
 		}
 	}
 	meta := vrun.Meta{Property: "C08", Workload: "TestC08NoHang", Total: len(faults), Exhaustive: !vrun.LoadEnv().Thorough(),
-		Rule: "fault enumeration: 11 API scenarios (open/write/flush/close of both stream kinds, reads, metadata, the three call APIs, receive inboxes, connection close with streams open) x every position of the scenario's fault-free client message trace x broker behaviour {drop, delay beyond the bound, misaddress by request id, by stream alias, by unsubscribed source node, disconnect in 4 modes (sever, write-fail, read-EOF, blackhole)}; every call carries a 5 s context deadline (virtual), close timeout 2 s, keepalive 1 s + 1 s. Oracle on the virtual clock: each call returns no later than its deadline + 1 ms; afterwards, with a cooperative broker, a probe set (open/write/close upstream, open/close downstream, metadata) completes within 120 virtual seconds; a case that stalls in real time with a library goroutine parked on a mutex is a leaked lock. the thorough tier adds 6000 seed-drawn PAIRS of faults at two positions of one scenario to the complete single-fault grid. non-trivial = the fault fired (position reached); distinct = (scenario, positions, behaviours)",
+		Rule: "fault enumeration: 12 API scenarios (open/write/flush/close of both stream kinds, reads, reads of chunks that refer to aliases the peer never announced, metadata, the three call APIs, receive inboxes, connection close with streams open) x every position of the scenario's fault-free client message trace x broker behaviour {drop, delay beyond the bound, misaddress by request id, by stream alias, by unsubscribed source node, disconnect in 4 modes (sever, write-fail, read-EOF, blackhole)}; every call carries a 5 s context deadline (virtual), close timeout 2 s, keepalive 1 s + 1 s. Oracle on the virtual clock: each call returns no later than its deadline + 1 ms; afterwards, with a cooperative broker, a probe set (open/write/close upstream, open/close downstream, metadata) completes within 120 virtual seconds; a case that stalls in real time with a library goroutine parked on a mutex is a leaked lock. the thorough tier adds 6000 seed-drawn PAIRS of faults at two positions of one scenario to the complete single-fault grid. non-trivial = the fault fired (position reached); distinct = (scenario, positions, behaviours)",
 		Assumptions: []string{"the governing bound of every judged call is its own context deadline (calls without a deadline on a live connection have no bound and are not judged)",
 			"the path-complete lock-release lemma of the statement is out of reach of runtime monitoring: only locks leaked on executed paths are detected"}}
 	vrun.Loop(t, meta, 0, func(c *vrun.Case) vrun.Result {
